@@ -6,11 +6,13 @@ Stage 2  L1 correspondence: RAW/AU/WAV sample-granular encodings x {write, read,
          sequence and final store bytes of the implementation compared byte for byte with `sfmodel faults`.
 Stage 3  K-complete enumeration on the implementation: representative formats x 3 workloads x every callback 1..K of the
          fault-free run (open included) x applicable kinds; the C15 predicate (vlib/c15lib.judge) on every transcript.
-(The descriptor-route OS errors of the statement -- /dev/full, EBADF, truncated pipe -- are not covered yet: the harness has no route for them.)
+Stage 4  the non-seekable route (vlib/c15pipe.py): every representative file through a pipe that ends early (every header byte / chunk boundary),
+         delivers short pieces, or carries a skip larger than the header cache; the check itself flags a call that does not return (alarm).
+(/dev/full is not covered; EFBIG and EBADF at close are C16's close-fault campaign.)
 """
 import os, re, subprocess, collections, time
 
-from .. import c15lib as L
+from .. import c15lib as L, c15pipe
 from ..core import Violation, VERIF, modules_for
 
 MODULES = modules_for("C15")
@@ -261,6 +263,10 @@ def run(ctx):
                       % (pr.text, r.name, r.word, r.ch, wl, pt[0], L.KIND_NAME[pt[1]], "single-shot" if pt[2] else "persistent",
                          pr.line, ops[pr.line][:100] if pr.line < len(ops) else "", pr.cat, sc))
 
+    # ---------------- stage 4: the non-seekable route (truncated pipe, short pieces, skips beyond the header cache) ---------------
+    if c15pipe.run(ctx, reps, known):
+        found_input = True
+
     # ---------------- verdicts ------------------------------------------------------------------------------------
     if corr and not found_input:
         nm, k, op, a, b, sc = corr[0]
@@ -278,7 +284,7 @@ def run(ctx):
                             "(iolog), then for EVERY i in 1..K every fault kind that can alter callback i (zero, short, short-by-one, seek failure, length too big/small, "
                             "tell off by 7, everything fails), persistent from i and single-shot; complete and redundancy-free. L1 formats additionally byte-for-byte against "
                             "the Lean oracle model for every post-open fault point. distinct_nontrivial = distinct (format, workload, kind) combinations + L1 (format, workload)")
-    ctx.assumptions.append("faults are injected through SF_VIRTUAL_IO only; genuine OS errors on the descriptor route (ENOSPC, EBADF, truncated pipe) are not exercised")
+    ctx.assumptions.append("callback-level faults are injected through SF_VIRTUAL_IO; of the genuine OS conditions the truncated / short-piece pipe is exercised here (vlib/c15pipe.py), EFBIG and EBADF at sf_close in C16 (vlib/closefault.py); ENOSPC on /dev/full is not")
     ctx.assumptions.append("loops outside the modelled set (block codecs, header parsers, 20 containers' header writers) are monitored by the enumeration, not proved")
 
 
@@ -296,6 +302,20 @@ def replay(ctx, path):
     if cat is None:
         return ctx.replay_script(path)
     bad = False
+    if cat.startswith("pipe-"):
+        # non-seekable route: the balance line and the read lines recorded in the replay header
+        if cat == "pipe-leak":
+            end = next((l for l in lines if l.startswith("balance=")), "")
+            d = L.kvs(end)
+            bad = not end or d.get("blocks") != "0" or not d.get("fds", "1").startswith("0") or not d.get("tmp", "1").startswith("0")
+        else:
+            obs = [l[len("# observed: "):].strip() for l in head.split("\n") if l.startswith("# observed: ")]
+            bad = bool(obs) and obs == [l.strip()[:160] for l in lines if l.startswith(("open=", "ret="))]
+        if bad:
+            ctx.report(path)
+        else:
+            print("replay: the property holds on this script now")
+        return
     if cat in ("hang", "memory"):
         bad = any(l.startswith(("TIMEOUT", "CRASH", "ABORT")) for l in lines)
     elif cat == "prefix":
